@@ -2,7 +2,9 @@
 Gillespie_SIS: view/rate loop invariants + draw-site obligations (as C01).
 fast_SIS: contracts on _find_next_trans_SIS_Markov (next transmission time = successive Exp(rate) delays from the
 current time, first one at which the target is susceptible again, only if before the source's recovery) and
-_process_rec_SIS_; _process_trans_SIS_Markov and the fast_SIS driver only by the bounded native stand-in."""
+_process_rec_SIS_, and on _process_trans_SIS_Markov (infect iff susceptible, recovery delay ~ Exp(rec rate of the node), one
+attempt chain started per neighbour and the source's chain continued, event arguments bound onto the handler's own
+signature); the fast_SIS driver / event loop only by the bounded native stand-in."""
 from ..pyvc import verify as V
 from ..contracts import handlers_sis
 from . import C01, util
@@ -17,7 +19,7 @@ def reg_sis():
 
 def run(tier, seed):
     rep, r = C01.run(tier, seed, prop='C02', units=('Gillespie_SIS',), fast=False)
-    rep.add_unit_results(util.run_jobs(util.jobs_for(reg_sis, tier=tier, quals={'_process_rec_SIS_', '_find_next_trans_SIS_Markov'})))
+    rep.add_unit_results(util.run_jobs(util.jobs_for(reg_sis, tier=tier, quals={'_process_rec_SIS_', '_find_next_trans_SIS_Markov', '_process_trans_SIS_Markov'})))
     from ..replay import sim_native
     rep.add(util.native_ob('native:fast_SIS-and-Gillespie_SIS-scripted-draws', 'EoN/simulation.py:fast_SIS / Gillespie_SIS', sim_native.c02_native,
                            'scripted random source on graphs <= 5 nodes, tmin in {0, -6, 2.5}: every waiting time of Gillespie_SIS is drawn with the total rate of the current '
@@ -27,5 +29,5 @@ def run(tier, seed):
     rep.level = 'other'
     rep.assumptions += ['fast_SIS: a delay is re-drawn from the failed attempt time while the target is still infected (memorylessness; cited) - proved per call of _find_next_trans_SIS_Markov',
                         'heapq / myQueue contracts as in C04']
-    rep.not_covered += ['_process_trans_SIS_Markov and the fast_SIS initialisation are decided only by the bounded native stand-in (not under unbounded contract)']
+    rep.not_covered += ['the fast_SIS driver (initialisation, event loop as a whole) is decided only by the bounded native stand-in; its three handlers are under unbounded contract']
     return rep, util.native_replayer
